@@ -473,6 +473,13 @@ def _vf(name, family, tier, seed, module="MCGenVec", tpl="Gen_Vec.cfg.tpl"):
 
 
 def c07(tier, seed, work):
+    res = c07_vec(tier, seed, work)
+    return add_walk(res, work, [dict(name="c07-api", module="MCGenApi", cfg_tpl="Gen_Cipher.cfg.tpl", family="api", tier=tier, seed=seed)],
+                    "Composition: every command through SendCommand outside and inside a session (RMCP + wrapper + [AES] + message + body), "
+                    "in table order and reversed; the decoded response must agree with the specification's record.")
+
+
+def c07_vec(tier, seed, work):
     W = dict(module="MCGenWireVec")
     return vec_check("C07", tier, seed, work, [_vf("c07-rsp", "rsp", tier, seed), _vf("c07-message", "message", tier, seed, **W),
                                                _vf("c07-wrapper", "wrapper", tier, seed, **W), _vf("c07-setup", "setup", tier, seed, **W),
@@ -502,7 +509,8 @@ def add_walk(res, work, fam_specs, note):
 def c06(tier, seed, work):
     W = dict(module="MCGenWireVec")
     res = c06_vec(tier, seed, work)
-    return add_walk(res, work, [dict(name="c06-sensor", module="MCGenSensor", cfg_tpl="Gen_Cipher.cfg.tpl", family="sweep", tier=tier, seed=seed)],
+    return add_walk(res, work, [dict(name="c06-sensor", module="MCGenSensor", cfg_tpl="Gen_Cipher.cfg.tpl", family="sweep", tier=tier, seed=seed),
+                                dict(name="c06-api", module="MCGenApi", cfg_tpl="Gen_Cipher.cfg.tpl", family="api", tier=tier, seed=seed)],
                     "In-session request encodings: Get Sensor Reading to every owner LUN (responses come back from that LUN) followed by "
                     "further requests on the same session; TLC parses each decrypted request (addresses, NetFn/LUN both ways, command, "
                     "data, checksums).")
